@@ -690,14 +690,15 @@ class NetstringSocket:
 
         if size > maxsize:
             raise NetstringMessageTooLong(size, maxsize)
-        # bytes consumed so far; un-read if a Timeout interrupts the
+        # bytes consumed so far; un-read if a Timeout or any other socket
+        # error (e.g. EWOULDBLOCK on a nonblocking socket) interrupts the
         # message so that the framing survives and read_ns can be retried
         consumed = size_prefix + b':'
         try:
             payload = self.bsock.recv_size(size)
             consumed += payload
             trailer = self.bsock.recv(1)
-        except Timeout:
+        except socket.error:
             with self.bsock._recv_lock:
                 self.bsock.rbuf = consumed + self.bsock.rbuf
             raise
